@@ -102,6 +102,7 @@ func header() string {
 		fmt.Fprintf(&sb, "func p%d(args ...interface{}) {}\nfunc q%d() bool { return gb }\n", j, j)
 		fmt.Fprintf(&sb, "func r%d() int { return gi }\nfunc rs%d() string { return gs }\n", j, j)
 		fmt.Fprintf(&sb, "func fa%d() {}\nfunc fb%d() (int, error) { return 0, nil }\nfunc fc%d(a int, b ...string) (r int) { return a }\nfunc fd%d(int, string) {}\n", j, j, j, j)
+		fmt.Fprintf(&sb, "type ts%d struct {\n\ta, b int\n\tc    string \"tag\"\n\td    bool\n}\n", j)
 	}
 	return sb.String()
 }
@@ -210,6 +211,9 @@ var shapes = []shape{
 	{"comment-flags", "(?i)CA%d: (?:alpha|x) (?P<x>BETA)", false},
 	{"comment-alternation", "ca%d: (?:(?P<x>zzz)|alpha)", false},
 	{"comment-angle-alternation", "ca%d: (?:(?<x>zzz)|alpha)", false},
+	{"fields-head", "type ts%d struct{$*x; $_ bool}", false},
+	{"fields-tail", "type ts%d struct{a, b int; $*x}", false},
+	{"fields-all", "type ts%d struct{$*x}", false},
 	{"two:list+expr", "p%d($*x, $y)", true},
 	{"two:expr+list", "p%d($y, $*x)", true},
 	{"two:nil+stmts", "func fa%d() $x { $*y }", true},
@@ -368,6 +372,7 @@ type result struct {
 	Trunc    int    `json:"trunc"`
 	GoVer    string `json:"gover"`
 	Reused   bool   `json:"reused"`
+	File     string `json:"file"` // disk: the analysed bytes are on disk; mem: nothing at the file's path; stale: a shorter, older version
 	LoadErr  string `json:"load_err,omitempty"`
 	Panic    string `json:"panic,omitempty"`
 	Bad      []bad  `json:"bad,omitempty"`
@@ -379,18 +384,34 @@ type ctxT struct {
 	trunc  int
 	gover  string
 	reused bool
+	// file: which copy of the target is analysed -- the one whose bytes the engine can read back from disk (""), one that
+	// exists in memory only ("mem": captures are printed, not sliced), or one whose saved version is an older, shorter one
+	// ("stale": captures inside the saved prefix are sliced, the others printed, one straddles the end)
+	file string
 }
 
 var miniImporter types.Importer
 
 // checkMini type-checks a small target with an importer shared between calls (the imported packages are checked once).
-func checkMini(dir string, src []byte) (*hutil.Target, error) {
+// saved: how many of the bytes the file system holds at the target's path (< 0: all; 0: there is no such file).
+func checkMini(dir string, src []byte, saved int) (*hutil.Target, error) {
 	path := filepath.Join(dir, "mini", "target.go")
 	if err := os.MkdirAll(filepath.Dir(path), 0o755); err != nil {
 		return nil, err
 	}
-	if err := os.WriteFile(path, src, 0o644); err != nil {
-		return nil, err
+	switch {
+	case saved == 0:
+		if err := os.Remove(path); err != nil && !os.IsNotExist(err) {
+			return nil, err
+		}
+	case saved > 0 && saved < len(src):
+		if err := os.WriteFile(path, src[:saved], 0o644); err != nil {
+			return nil, err
+		}
+	default:
+		if err := os.WriteFile(path, src, 0o644); err != nil {
+			return nil, err
+		}
 	}
 	fset := token.NewFileSet()
 	f, err := parser.ParseFile(fset, path, src, parser.ParseComments)
@@ -414,7 +435,14 @@ func checkMini(dir string, src []byte) (*hutil.Target, error) {
 func locate(tmp string, fr filt.Rule, c ctxT) string {
 	hdr := header()
 	try := func(body string) bool {
-		t, err := checkMini(tmp, []byte(hdr+sitesOpen+body+"}\n"))
+		saved := -1
+		switch c.file {
+		case "mem":
+			saved = 0
+		case "stale":
+			saved = len(hdr) + len(sitesOpen) + len(body)/2
+		}
+		t, err := checkMini(tmp, []byte(hdr+sitesOpen+body+"}\n"), saved)
 		if err != nil {
 			return false
 		}
@@ -561,16 +589,41 @@ func main() {
 			}
 		}
 	}
-	ctxs := []ctxT{{0, "", false}, {-3, "1.18", true}, {4, "", true}}
+	ctxs := []ctxT{{0, "", false, ""}, {-3, "1.18", true, ""}, {4, "", true, ""}, {0, "", false, "mem"}, {6, "1.18", true, "stale"}}
 	if *full {
 		ctxs = nil
 		for _, tl := range []int{0, -3, 1, 4, 5, 7, 70} {
 			for _, gv := range []string{"", "1.18"} {
 				for _, ru := range []bool{false, true} {
-					ctxs = append(ctxs, ctxT{tl, gv, ru})
+					ctxs = append(ctxs, ctxT{tl, gv, ru, ""})
+					if (tl == 0 || tl == 5) && (gv == "") == ru {
+						ctxs = append(ctxs, ctxT{tl, gv, ru, "mem"}, ctxT{tl, gv, ru, "stale"})
+					}
 				}
 			}
 		}
+	}
+	// the same source under a path where nothing is saved, and under one where an older version is: cut in the middle of
+	// the probe sites of column W/2 (a capture of every shape on either side of the cut)
+	targets := map[string]*hutil.Target{"": t}
+	{
+		src := target()
+		mt, err := filt.CheckDetachedTarget(filepath.Join(*tmp, "detached", "never_saved.go"), []byte(src), nil)
+		if err != nil {
+			fmt.Fprintln(os.Stderr, err)
+			os.Exit(3)
+		}
+		cut := strings.Index(src, fmt.Sprintf("\tp%d(%s)\n", W/2, exprSites[len(exprSites)/2]))
+		if cut < 0 {
+			fmt.Fprintln(os.Stderr, "stale target: cut point not found")
+			os.Exit(3)
+		}
+		st, err := filt.CheckDetachedTarget(filepath.Join(*tmp, "detached", "older_on_disk.go"), []byte(src), []byte(src[:cut+5]))
+		if err != nil {
+			fmt.Fprintln(os.Stderr, err)
+			os.Exit(3)
+		}
+		targets["mem"], targets["stale"] = mt, st
 	}
 	mkRule := func(r ruleT, j int) filt.Rule {
 		fr := filt.Rule{Name: fmt.Sprintf("g%d", j), Pattern: fmt.Sprintf(r.sh.pattern, j), Where: r.in.d, Extra: ".\n\t\tSuggest(`$x`)" + r.extra,
@@ -602,6 +655,7 @@ func main() {
 			return 0, nil, "", err.Error()
 		}
 		var st *ruleguard.RunnerState
+		t := targets[c.file]
 		if c.reused {
 			st = ruleguard.NewRunnerState(eng)
 			states[eng] = st
@@ -618,7 +672,7 @@ func main() {
 			w = r.in.d.Go()
 		}
 		enc.Encode(result{K: "run", Inst: r.in.name, Ctor: r.in.ctor, Shape: r.sh.name, Pattern: r.sh.pattern, Where: w, Extra: r.extra, Do: r.do, Site: site,
-			Trunc: c.trunc, GoVer: c.gover, Reused: c.reused, LoadErr: lerr, Panic: pmsg, Bad: bads, Reports: n})
+			Trunc: c.trunc, GoVer: c.gover, Reused: c.reused, File: c.file, LoadErr: lerr, Panic: pmsg, Bad: bads, Reports: n})
 	}
 	emit := func(r ruleT, c ctxT, n int, bads []bad, pmsg, lerr string) { emitAt(r, c, n, bads, pmsg, lerr, "") }
 	for _, c := range ctxs {
@@ -654,9 +708,9 @@ func main() {
 	}
 	for tl := -3; tl <= 70; tl++ {
 		for _, gv := range []string{"", "1.21"} {
-			c := ctxT{tl, gv, tl%2 == 0}
+			c := ctxT{tl, gv, tl%2 == 0, []string{"", "mem", "stale"}[(tl+3)%3]}
 			n, bads, pmsg, lerr := runSet(small, c, false)
-			enc.Encode(result{K: "render", Inst: "true", Shape: "all", Trunc: tl, GoVer: gv, Reused: c.reused, LoadErr: lerr, Panic: pmsg, Bad: bads, Reports: n})
+			enc.Encode(result{K: "render", Inst: "true", Shape: "all", Trunc: tl, GoVer: gv, Reused: c.reused, File: c.file, LoadErr: lerr, Panic: pmsg, Bad: bads, Reports: n})
 		}
 	}
 	// recursive / cyclic / very large types under every type predicate, in child processes
